@@ -55,6 +55,12 @@ CHECKS = {
         text="'Direct product' is a layout statement: offsets are prefix sums (decided by the compiler's constant evaluator on 48 generated layouts where every group appears first, middle, last, repeated and alone), every table-valued operation (hat, Vee, generators, smallAdj, inner weights) equals the block-diagonal assembly of the element groups' own tables at independently computed offsets (exact), every Jacobian result/output is fully written inside the element blocks and provably exactly zero outside, each X_impl calls X on element<i>() with the index of its block, and element<i>() views lie exactly on the i-th element's coefficients. The analysed layout (SE2,SO3,R4,SGal3) makes the five kinds of offset pairwise distinguishable.",
         note="Values inside the element blocks are the element groups' own operations (other properties). The name-based R-KIND rule of the design was replaced by these semantic placement checks (no false alarm on renamed but equal offset expressions). Trusted: clang constant evaluation, documented element sizes table, Eigen block semantics.",
     ),
+    "C10": dict(
+        level="proof", design="3/C10",
+        technique="static analysis: class-surface and storage-access AST rules on the Eigen::Map specialisations, static_assert and must-not-compile witnesses decided by the type checker, block / raw-view bounds, assignment-family body shapes",
+        text="'Same result as an owning object' holds by construction if views and owning objects execute the same function bodies over the same coefficient accessor, and 'writes exactly RepSize scalars' if every access is statically bounded. The check proves these shape facts: the 32 Map specialisations derive from the same CRTP base as the owning class and declare only constructors, coeffs() and operator=; base code never names data_; traits of views equal the owning class's and DataType is a fixed-size Eigen::Map (672 static_asserts); every constant sub-view and internal raw view (asSO3, element<i>, SGal3::log) lies inside its buffer and is const-correct; every operator=/copy/move constructor (patterns and instantiations) only copies coefficients; every mutating API entry is rejected by the compiler on Map<const G> and const G&; C19 covers instantiation of every operation on views.",
+        note="NOT decided: last-ulp differences between aligned owning and unaligned view operands (vectorisation paths). Trusted: clang front end, Eigen::Map semantics.",
+    ),
 }
 
 NOT_APPLICABLE = {
